@@ -99,7 +99,8 @@ pub struct Cw20Instantiate;
 impl Driver for Cw20Instantiate {
     fn gen(&self, rng: &mut Rng, _i: u64) -> Value {
         let n = rng.next() % 5;
-        let accts: Vec<Value> = (0..n).map(|_| json!([format!("addr{}", rng.next() % 4), rng.amount(1000).to_string()])).collect();
+        // the same account may be spelled in two ways (an address canonicalises case-insensitively)
+        let accts: Vec<Value> = (0..n).map(|_| { let a = format!("addr{}", rng.next() % 4); json!([if rng.next() % 4 == 0 { a.to_uppercase() } else { a }, rng.amount(1000).to_string()]) }).collect();
         json!({"accounts": accts})
     }
     fn run(&self, input: &Value) -> Outcome {
@@ -112,7 +113,7 @@ impl Driver for Cw20Instantiate {
         let mut c = BTreeMap::new();
         let mut obs = json!({"err": res.as_ref().err().map(|e| e.to_string())});
         if res.is_ok() {
-            let mut names: Vec<String> = accts.iter().map(|a| a.address.clone()).collect();
+            let mut names: Vec<String> = accts.iter().map(|a| a.address.to_lowercase()).collect();
             names.sort(); names.dedup();
             let sum: u128 = names.iter().map(|n| query_balance(deps.as_ref(), n.clone()).unwrap().balance.u128()).sum();
             let total = query_token_info(deps.as_ref()).unwrap().total_supply.u128();
